@@ -43,6 +43,26 @@ def run(ctx):
                          f"soll_is_required={c['soll']} equals validating with every SOLL replaced by {word}: {want[1] if want[0] == 'exn' else want[1][:8]}",
                          f"{got[1] if got[0] == 'exn' else got[1][:8]}", "oracle: C14 equation on ahbicht")
                 break
+        # the same equation at the other two entry points: validate_segment_level (a group as root) and validate_segment (below every parent status)
+        if has_soll and c["lines"]:
+            g, g2 = c["lines"][0], lines2[0]
+            want = valcorr.summarize(valcorr.run_segment_level(g, c["soll"]))
+            for flag2 in (True, False):
+                got = valcorr.summarize(valcorr.run_segment_level(g2, flag2))
+                if want != got:
+                    ctx.fail(f"soll-level|{str(valcorr.describe(c))[:300]}", dict(valcorr.describe(c), entry="validate_segment_level", root=g[1], rewritten=g2, flag_for_rewritten=flag2),
+                             f"{want[1] if want[0] == 'exn' else want[1][:8]}", f"{got[1] if got[0] == 'exn' else got[1][:8]}", "oracle: C14 equation on ahbicht (validate_segment_level)")
+                    break
+            sg, sg2 = valcorr.first_segment(g), valcorr.first_segment(g2)
+            if sg is not None:
+                for parent in (None, "IS_REQUIRED", "IS_OPTIONAL"):
+                    want = valcorr.summarize(valcorr.run_segment(sg, parent, c["soll"]))
+                    got = valcorr.summarize(valcorr.run_segment(sg2, parent, not c["soll"]))
+                    ctx.add_eval(2)
+                    if want != got:
+                        ctx.fail(f"soll-segment|{parent}|{str(valcorr.describe(c))[:300]}", dict(valcorr.describe(c), entry="validate_segment", segment=sg[1], parent_status=parent, rewritten=sg2),
+                                 f"{want[1] if want[0] == 'exn' else want[1][:8]}", f"{got[1] if got[0] == 'exn' else got[1][:8]}", "oracle: C14 equation on ahbicht (validate_segment)")
+                        break
         n_soll += 1 if has_soll else 0
         ctx.add_eval(2)
     ctx.coverage["distinct_nontrivial"] = n_soll
